@@ -809,3 +809,78 @@ pub fn run_c02_loc(tier: &str, seed: u64) -> CheckResult {
     r.assumptions.push("bounded: generated corpus only; expected constructs come from the executable transcription of DESIGN.md section 8".into());
     r
 }
+
+
+// ---------------------------------------------------------------------------------------------
+// C17 (pragma part): comments INSIDE a pragma statement. The parser keeps them in the text of the pragma value, so this
+// is the one place where the analysis sees comment text; the findings must be those of the same file with the comments
+// of the pragma statements removed (block comment -> one space, line comment -> nothing up to its line break).
+// ---------------------------------------------------------------------------------------------
+/// lines (1-based) of the starts of what detector `d` reports on `src`; None if it does not parse / panics
+fn lines_of_det(d: Det, src: &str) -> Option<BTreeSet<usize>> {
+    let su = solang_parser::parse(src, 0).ok()?.0;
+    match run_real(d, &su) {
+        Run::Ok(r) => Some(r.iter().map(|o| super::line_of(src, *o)).collect()),
+        Run::Panic(_, _) => None,
+    }
+}
+
+pub fn c17_pragma_pair(d: Det, commented: &str, plain: &str) -> (bool, String) {
+    match (lines_of_det(d, commented), lines_of_det(d, plain)) {
+        (Some(a), Some(b)) if a == b => (true, format!("{}: both texts give lines {:?}", d.name(), a)),
+        (Some(a), Some(b)) => (false, format!("{}: with the comment in the pragma statement lines {:?}, without it lines {:?}", d.name(), a, b)),
+        _ => (true, "a text does not parse or the detector panics: not this check's business".into()),
+    }
+}
+
+pub fn run_c17_pragma(tier: &str, _seed: u64) -> CheckResult {
+    install_panic_hook();
+    let mut r = CheckResult::new("c17-pragma");
+    let dets = Det::all();
+    let bodies = corpus::c09_bodies();
+    let versions: Vec<(u32, u32, u32)> = if tier == "thorough" { corpus::boundary_versions() } else { vec![(0, 4, 24), (0, 7, 6), (0, 8, 0), (0, 8, 3), (0, 8, 4), (0, 8, 17), (1, 0, 0)] };
+    // (name, pragma statement with a comment); the plain twin is computed with the oracle's comment stripper
+    let mut forms: Vec<(String, String)> = vec![];
+    for (a, b, c) in &versions {
+        let v = format!("{}.{}.{}", a, b, c);
+        let other = if (*a, *b) >= (0, 8) { "0.4.11" } else { "0.8.19" };
+        for op in ["", "^", ">="] {
+            forms.push((format!("version-in-trailing-block-comment:{}{}", op, v), format!("pragma solidity {}{} /* was {} */;\n", op, v, other)));
+            forms.push((format!("version-in-leading-block-comment:{}{}", op, v), format!("pragma solidity /* not {} */ {}{};\n", other, op, v)));
+            forms.push((format!("version-in-line-comment:{}{}", op, v), format!("pragma solidity {}{} // {}\n;\n", op, v, other)));
+            forms.push((format!("caret-in-block-comment:{}{}", op, v), format!("pragma solidity {}{} /* ^{} */;\n", op, v, other)));
+            forms.push((format!("comment-between-keyword-and-name:{}{}", op, v), format!("pragma /* c */ solidity {}{};\n", op, v)));
+        }
+    }
+    forms.push(("experimental-with-comment".into(), "pragma experimental /* 0.4.11 ^ */ ABIEncoderV2;\npragma solidity 0.8.10;\n".into()));
+    for (fname, stmt) in &forms {
+        let plain_stmt = oracle::without_comments(stmt);
+        for (bname, body) in &bodies {
+            let commented = format!("{}{}", stmt, body);
+            let plain = format!("{}{}", plain_stmt, body);
+            for d in &dets {
+                r.evaluations += 1;
+                let (ok, msg) = c17_pragma_pair(*d, &commented, &plain);
+                if let (Some(a), true) = (lines_of_det(*d, &plain), ok) {
+                    if !a.is_empty() {
+                        r.nontrivial.insert(format!("{}|{}|{}", d.name(), fname.split(':').next().unwrap_or(""), bname));
+                    }
+                }
+                if !ok {
+                    r.violate(
+                        &format!("c17:comment-in-pragma-changes-findings:{}:{}", d.name(), fname.split(':').next().unwrap_or("")),
+                        &format!("{} ({}, body {})", msg, fname, bname),
+                        vec!["c17-pragma-case".into(), d.name().to_string(), format!("@src:{}", commented), format!("@src:{}", plain)],
+                        "the findings of the same text without the comment".into(),
+                        msg.clone(),
+                    );
+                }
+            }
+        }
+    }
+    r.sample(J::obj(vec![("commented", J::s(format!("{}...", forms[0].1))), ("plain", J::s(oracle::without_comments(&forms[0].1)))]));
+    r.rule = "one case = (pragma statement with a comment, body, detector): the detector's lines on the text must equal its lines on the same text with the comments of the pragma statement removed; non-trivial = distinct (detector, comment form, body) where the detector reports something".into();
+    r.bound = format!("{} pragma forms (versions x operators {{none, ^, >=}} x 5 comment placements) x {} bodies x {} detectors", forms.len(), bodies.len(), dets.len());
+    r.assumptions.push("the parser keeps comments inside the text of a pragma value (solang-parser 0.1.18); everywhere else comments are dropped by the lexer and covered by the layout check c17".into());
+    r
+}
